@@ -4,24 +4,25 @@ goroutine and its preservation by every operation.
 -/
 import RqModel.Model.Fifo
 namespace RqModel.Fifo
+variable {α : Type}
 
 /-- keys strictly ascending -/
-def Sorted (l : List Item) : Prop := l.Pairwise (fun a b => a.1 < b.1)
+def Sorted (l : List (Item α)) : Prop := l.Pairwise (fun a b => a.1 < b.1)
 
 /-- Invariant of the manager goroutine's state:
 the bucket is strictly ascending, no key exceeds `highest`, and the pre-loaded head is
 exactly what a `Seek(nextFrom)` would return now. -/
-structure Inv (q : Q) : Prop where
+structure Inv (q : Q α) : Prop where
   sorted  : Sorted q.items
   bounded : ∀ p ∈ q.items, p.1 ≤ q.highest
   head    : q.nextEv = seek q.items q.nextFrom
 
-theorem inv_empty : Inv empty := by
+theorem inv_empty : Inv (empty : Q α) := by
   constructor <;> simp [empty, Sorted, seek]
 
 /-! #### put above every key is an append -/
 
-theorem put_above (l : List Item) (k : Nat) (d : String) (h : ∀ p ∈ l, p.1 < k) :
+theorem put_above (l : List (Item α)) (k : Nat) (d : α) (h : ∀ p ∈ l, p.1 < k) :
     put l k d = l ++ [(k, d)] := by
   induction l with
   | nil => simp [put]
@@ -33,7 +34,7 @@ theorem put_above (l : List Item) (k : Nat) (d : String) (h : ∀ p ∈ l, p.1 <
     simp [put, this, h2]
     exact ih (fun p hp => h p (by simp [hp]))
 
-theorem sorted_append_above (l : List Item) (k : Nat) (d : String)
+theorem sorted_append_above (l : List (Item α)) (k : Nat) (d : α)
     (hs : Sorted l) (h : ∀ p ∈ l, p.1 < k) : Sorted (l ++ [(k, d)]) := by
   unfold Sorted at *
   rw [List.pairwise_append]
@@ -45,7 +46,7 @@ theorem sorted_append_above (l : List Item) (k : Nat) (d : String)
 
 /-! #### dropWhile on a sorted bucket is the exact filter -/
 
-theorem dropWhile_eq_filter (l : List Item) (n : Nat) (hs : Sorted l) :
+theorem dropWhile_eq_filter (l : List (Item α)) (n : Nat) (hs : Sorted l) :
     l.dropWhile (fun p => decide (p.1 ≤ n)) = l.filter (fun p => decide (n < p.1)) := by
   induction l with
   | nil => simp
@@ -66,16 +67,16 @@ theorem dropWhile_eq_filter (l : List Item) (n : Nat) (hs : Sorted l) :
         simp; omega
       exact this.symm
 
-theorem sorted_filter (l : List Item) (p : Item → Bool) (hs : Sorted l) : Sorted (l.filter p) :=
+theorem sorted_filter (l : List (Item α)) (p : Item α → Bool) (hs : Sorted l) : Sorted (l.filter p) :=
   List.Pairwise.sublist List.filter_sublist hs
 
 /-! #### find? facts used for the head -/
 
-theorem seek_some_ge {l : List Item} {n : Nat} {e : Item} (h : seek l n = some e) : n ≤ e.1 := by
+theorem seek_some_ge {l : List (Item α)} {n : Nat} {e : Item α} (h : seek l n = some e) : n ≤ e.1 := by
   have := List.find?_some h
   simpa using this
 
-theorem seek_some_mem {l : List Item} {n : Nat} {e : Item} (h : seek l n = some e) : e ∈ l :=
+theorem seek_some_mem {l : List (Item α)} {n : Nat} {e : Item α} (h : seek l n = some e) : e ∈ l :=
   List.mem_of_find?_eq_some h
 
 theorem find_stronger {α} (l : List α) (p p' : α → Bool) (e : α)
@@ -106,21 +107,21 @@ theorem find_filter {α} (l : List α) (p q : α → Bool) :
   | cons a l ih =>
     cases hq : q a <;> simp [List.filter_cons, List.find?_cons, hq, ih]
 
-theorem seek_append_some (l : List Item) (x : Item) (n : Nat) (e : Item)
+theorem seek_append_some (l : List (Item α)) (x : Item α) (n : Nat) (e : Item α)
     (h : seek l n = some e) : seek (l ++ [x]) n = some e := by
   unfold seek at *
   rw [List.find?_append, h]; rfl
 
 /-! #### preservation -/
 
-theorem inv_loadHead_of (q : Q) (hs : Sorted q.items) (hb : ∀ p ∈ q.items, p.1 ≤ q.highest)
+theorem inv_loadHead_of (q : Q α) (hs : Sorted q.items) (hb : ∀ p ∈ q.items, p.1 ≤ q.highest)
     (hh : ∀ e, q.nextEv = some e → seek q.items q.nextFrom = some e) : Inv (loadHead q) := by
   unfold loadHead
   cases hne : q.nextEv with
   | some e => exact ⟨hs, hb, by rw [hne]; exact (hh e hne).symm⟩
   | none => exact ⟨hs, hb, rfl⟩
 
-theorem enqueue_items_of_gt (q : Q) (k : Nat) (d : String) (hq : Inv q) (hk : q.highest < k) :
+theorem enqueue_items_of_gt (q : Q α) (k : Nat) (d : α) (hq : Inv q) (hk : q.highest < k) :
     (enqueue q k d).items = q.items ++ [(k, d)] ∧ (enqueue q k d).highest = k ∧
     (enqueue q k d).nextFrom = q.nextFrom := by
   have hput : put q.items k d = q.items ++ [(k, d)] :=
@@ -130,7 +131,7 @@ theorem enqueue_items_of_gt (q : Q) (k : Nat) (d : String) (hq : Inv q) (hk : q.
   simp only [this, if_false]
   cases q.nextEv <;> simp [hput]
 
-theorem inv_enqueue (q : Q) (k : Nat) (d : String) (hq : Inv q) : Inv (enqueue q k d) := by
+theorem inv_enqueue (q : Q α) (k : Nat) (d : α) (hq : Inv q) : Inv (enqueue q k d) := by
   by_cases hk : k ≤ q.highest
   · simp [enqueue, hk]; exact hq
   · have hk' : q.highest < k := by omega
@@ -150,24 +151,24 @@ theorem inv_enqueue (q : Q) (k : Nat) (d : String) (hq : Inv q) : Inv (enqueue q
       simp only [hput] at *
       exact seek_append_some _ _ _ _ (by rw [← hq.head]; exact he)
 
-theorem deleteRange_items (q : Q) (n : Nat) (hq : Inv q) :
+theorem deleteRange_items (q : Q α) (n : Nat) (hq : Inv q) :
     (deleteRange q n).items = q.items.filter (fun p => decide (n < p.1)) := by
   unfold deleteRange loadHead
   simp only
   split <;> simp [dropWhile_eq_filter _ _ hq.sorted]
 
-theorem deleteRange_highest (q : Q) (n : Nat) : (deleteRange q n).highest = q.highest := by
+theorem deleteRange_highest (q : Q α) (n : Nat) : (deleteRange q n).highest = q.highest := by
   unfold deleteRange loadHead
   simp only
   split <;> rfl
 
-theorem deleteRange_nextFrom (q : Q) (n : Nat) :
+theorem deleteRange_nextFrom (q : Q α) (n : Nat) :
     (deleteRange q n).nextFrom = if q.nextFrom ≠ 0 ∧ q.nextFrom ≤ n then n + 1 else q.nextFrom := by
   unfold deleteRange loadHead
   simp only
   split <;> rfl
 
-theorem inv_deleteRange (q : Q) (n : Nat) (hq : Inv q) : Inv (deleteRange q n) := by
+theorem inv_deleteRange (q : Q α) (n : Nat) (hq : Inv q) : Inv (deleteRange q n) := by
   unfold deleteRange
   simp only
   apply inv_loadHead_of
@@ -195,20 +196,20 @@ theorem inv_deleteRange (q : Q) (n : Nat) (hq : Inv q) : Inv (deleteRange q n) :
         · intro x hx
           split at hx <;> simp at hx ⊢ <;> omega
 
-theorem inv_consume (q : Q) (hq : Inv q) : Inv (consume q).1 := by
+theorem inv_consume (q : Q α) (hq : Inv q) : Inv (consume q).1 := by
   unfold consume
   cases hne : q.nextEv with
   | none => exact hq
   | some e => exact ⟨hq.sorted, hq.bounded, rfl⟩
 
-theorem inv_reopen (q : Q) (hq : Inv q) : Inv (reopen q) := by
+theorem inv_reopen (q : Q α) (hq : Inv q) : Inv (reopen q) := by
   unfold reopen
   apply inv_loadHead_of
   · exact hq.sorted
   · exact hq.bounded
   · intro e he; simp at he
 
-theorem inv_stepOp (q : Q) (op : Op) (hq : Inv q) : Inv (stepOp q op).1 := by
+theorem inv_stepOp (q : Q α) (op : Op α) (hq : Inv q) : Inv (stepOp q op).1 := by
   cases op with
   | enq k d => exact inv_enqueue q k d hq
   | del n => exact inv_deleteRange q n hq
@@ -216,7 +217,7 @@ theorem inv_stepOp (q : Q) (op : Op) (hq : Inv q) : Inv (stepOp q op).1 := by
   | query => exact hq
   | reopen => exact inv_reopen q hq
 
-theorem inv_runQ (q : Q) (ops : List Op) (hq : Inv q) : Inv (runQ q ops) := by
+theorem inv_runQ (q : Q α) (ops : List (Op α)) (hq : Inv q) : Inv (runQ q ops) := by
   induction ops generalizing q with
   | nil => exact hq
   | cons op rest ih => exact ih _ (inv_stepOp q op hq)
